@@ -282,6 +282,10 @@ Done ==
 Next == Fit \/ Apply \/ Done
 Spec == Init /\ [][Next]_vars
 
+\* vacuity guard (POSTCONDITION): the longest behaviour is Init ; Fit ; Apply x (rows + 2 unseen) ; Done, so the
+\* search depth shows that every action was taken up to the last row of the largest matrix
+PostDepth == TLCGet("diameter") = (IF MaxN >= MaxN2 THEN MaxN ELSE MaxN2) + 5
+
 YCol(j) == [i \in 1..N |-> outs[i][j]]
 
 \* the relation accepts the rounded exact image of every row (slack 1 covers the quantisation)
